@@ -83,12 +83,12 @@ func nbAccept(ln *net.TCPListener) net.Conn {
 		return nil
 	}
 	nfd := -1
-	rc.Read(func(fd uintptr) bool {
+	// (a listener's RawConn has no Read; Control runs the function on the descriptor)
+	rc.Control(func(fd uintptr) {
 		n, _, e := syscall.Accept4(int(fd), syscall.SOCK_CLOEXEC)
 		if e == nil {
 			nfd = n
 		}
-		return true
 	})
 	if nfd < 0 {
 		return nil
